@@ -67,6 +67,19 @@ UNIT = Unit(
                "  forall|i: int| 0 <= i < f0.len() ==> (#[trigger] struct_def.fields@[i]).0 == f0[i].0\n"
                "    && struct_def.fields@[i].1 == (if i < __ix && cs0[i] is Some { Ty::TStruct { name: cs0[i]->0 } } else { f0[i].1 }),\n"
                "decreases __cf@.len(),")),
+        Fn(file=L, name="transform_closure", rename="closure_ret_ty", ret="r", rules=["attrs", ("strip", "tast::")],
+           cut_from="let body_ty = body.get_ty();", cut_before="let mut captured = IndexMap::new();", cut_tail="    ret_ty",
+           sig="fn closure_ret_ty(state: &State, body: &LiftExpr, ret_ty: Ty) -> Ty",
+           rewrites=[(re.compile(r"\bbody_ty != ret_ty\b"), "ty_ne(&body_ty, &ret_ty)", "*")],
+           obligation="the apply function of a closure whose lifted body yields a closure environment returns THAT type (not the declared function type): a "
+                      "closure returned from a closure keeps its environment",
+           contract="ensures state.contains_closure(lift_ty(*body)) ==> r == lift_ty(*body), !state.contains_closure(lift_ty(*body)) ==> r == ret_ty,"),
+        Fn(file=L, name="apply_result_ty", ret="r", optional=True, rules=["attrs", ("strip", "tast::")],
+           rewrites=[("state: &State<'_>", "state: &State"), ("state.liftenv.get_func(apply_fn)", "state.get_func_ty(apply_fn)"),
+                     (re.compile(r"Some\(Ty::TFunc \{ ret_ty, \.\. \}\) if state\.ty_contains_closure\(&ret_ty\) => \*ret_ty,"),
+                      "Some(Ty::TFunc { ret_ty, .. }) if state.ty_contains_closure(&ret_ty) => unbox_ty(ret_ty),", "*")],
+           obligation="the type of a call of an apply function is that function's result type when it holds a closure environment, else the call's own type",
+           contract="ensures r == apply_call_ty(state, apply_fn@, ty),"),
         Fn(file=L, name="transform_expr", rename="lift_call", ret="r", attrs="#[verifier::loop_isolation(false)]", rules=["attrs", ("strip", "tast::"), "let_chain", "opt_or_else"],
            cut_from="MonoExpr::ECall { func, args, ty } => {", cut_inside=True, cut_before="@block-end", cut_tail="",
            sig="fn lift_call(state: &mut State, scope: &mut Scope, func: Box<MonoExpr>, args: Vec<MonoExpr>, ty: Ty) -> LiftExpr",
@@ -78,14 +91,14 @@ UNIT = Unit(
                      (re.compile(r"Ty::TFunc \{ ref ret_ty, \.\. \} if state\.ty_contains_closure\(ret_ty\) => \{\s*\*ret_ty\.vclone\(\)\s*\}"),
                       "Ty::TFunc { ref ret_ty, .. } if state.ty_contains_closure(ret_ty) => { ty_unbox_clone(ret_ty) }", "*"),
                      (re.compile(r"\n([ \t]*)return LiftExpr::ECall \{(.*?)\n\1\};", re.S),
-                      r"\n\1let __res = LiftExpr::ECall {\2\n\1};\n\1proof { assert(call_args@.subrange(1, call_args@.len() as int) =~= args_g); assert(call_ok(__res, fe_g, la_g, scope, state, ty)); }\n\1return __res;", "*"),
+                      r"\n\1let __res = LiftExpr::ECall {\2\n\1};\n\1proof { assert(call_args@.subrange(1, call_args@.len() as int) =~= args_g); assert(call_ok(__res, fe_g, la_g, scope, state, ty0)); }\n\1return __res;", "*"),
                      (re.compile(r"\n([ \t]*)LiftExpr::ECall \{\s*func: Box::new\(func_expr\),(.*?)\n\1\}\s*\n\}\s*$", re.S),
-                      r"\n\1let __res2 = LiftExpr::ECall {\n\1    func: Box::new(func_expr),\2\n\1};\n\1proof { assert(call_ok(__res2, fe_g, la_g, scope, state, ty)); }\n\1__res2\n}", 1)],
+                      r"\n\1let __res2 = LiftExpr::ECall {\n\1    func: Box::new(func_expr),\2\n\1};\n\1proof { assert(call_ok(__res2, fe_g, la_g, scope, state, ty0)); }\n\1__res2\n}", 1)],
            obligation="a call whose callee holds a closure — a variable whose scope entry records one, or ANY callee whose lifted type is a closure "
                       "environment (`make_adder(3)(10)`, `t.0(10)`) — with a registered apply function becomes a call of THAT apply function with "
                       "the closure itself as first argument and the original arguments after it, in order; the call's type is unchanged",
            contract="ensures exists|fe: LiftExpr, la: Seq<LiftExpr>| #[trigger] call_ok(r, fe, la, final(scope), final(state), ty),",
-           ghost=[("let func_expr = transform_expr(", "line-after", "let ghost fe_g = func_expr;"),
+           ghost=[("@entry", "", "let ghost ty0 = ty;"), ("let func_expr = transform_expr(", "line-after", "let ghost fe_g = func_expr;"),
                   (r"@after-loop:__src", "", "let ghost la_g = args@;")],
            loop_fn=lambda k, header, kw: ("invariant true,\ndecreases __src@.len()," if "__src.len()" in header else None)),
         Fn(file=L, name="transform_expr", rename="lift_let", ret="r", rules=["attrs", ("strip", "tast::")],
